@@ -338,6 +338,58 @@ def _b_events(args):
     return ev, fails
 
 
+def _chain_job(seed):
+    """vectors held as 1-D arrays and products CHAINED through the library (the output of one product is the operand of
+    the next, in every storage combination): values against the definition, and the shape a sparse result reports against
+    the shape of its own planes -> (evaluations, [(fn, clause, detail), ...])"""
+    from ..qlib import omul
+    u = lib().utils
+    rng = np.random.default_rng(seed)
+    fails, n_ev = [], 0
+
+    def dense_of(C):
+        if hasattr(C, "real") and hasattr(C, "k") and not isinstance(C, np.ndarray):
+            return _sp_dense(C), tuple(C.shape), tuple(C.real.shape)
+        return q_to_float(np.asarray(C)), tuple(np.shape(C)), None
+    for rep in range(6):
+        k, n, p = (int(x) for x in rng.integers(1, 5, 3))
+        x1 = rng.integers(-3, 4, (k, 4)).astype(float)                 # a 1-D vector of k quaternions
+        FS = rng.integers(-3, 4, (k, n, 4)).astype(float)
+        FB = rng.integers(-3, 4, (n, p, 4)).astype(float)
+        want1 = omul(x1.reshape(1, k, 4), FS)                           # the row vector times S, as 1 x n
+        want2 = omul(want1, FB)
+        for left_fmt in ("dense-1d", "dense-1xk"):
+            for s_fmt in ("sparse", "dense"):
+                for b_fmt in ("dense", "sparse"):
+                    xq = quaternion.as_quat_array(x1.copy()) if left_fmt == "dense-1d" else q_from_float(x1.reshape(1, k, 4).copy())
+                    S_ = _sp(FS) if s_fmt == "sparse" else q_from_float(FS.copy())
+                    B_ = _sp(FB) if b_fmt == "sparse" else q_from_float(FB.copy())
+                    tag = {"left": left_fmt, "middle": s_fmt, "right": b_fmt, "k": k, "n": n, "p": p, "x": x1.tolist(), "S": FS.tolist(), "B": FB.tolist()}
+                    R1 = u.quat_matmat(xq, S_)
+                    d1, lab1, pl1 = dense_of(R1)
+                    n_ev += 1
+                    if d1.size != want1.size or not np.array_equal(d1.reshape(want1.shape), want1):
+                        fails.append(("product.chain", "ProductIsHamilton", dict(tag, step="x S", got=d1.tolist(), want=want1.tolist())))
+                        continue
+                    if pl1 is not None and lab1 != pl1:
+                        fails.append(("product.chain", "ProductShape", dict(tag, step="x S", reported_shape=list(lab1), shape_of_planes=list(pl1))))
+                    R2 = u.quat_matmat(R1, B_)
+                    d2, lab2, pl2 = dense_of(R2)
+                    n_ev += 1
+                    if d2.size != want2.size or not np.array_equal(d2.reshape(want2.shape), want2):
+                        fails.append(("product.chain", "ProductIsHamilton", dict(tag, step="(x S) B", got_shape=list(d2.shape), got=d2.tolist(), want=want2.tolist())))
+                    elif pl2 is not None and lab2 != pl2:
+                        fails.append(("product.chain", "ProductShape", dict(tag, step="(x S) B", reported_shape=list(lab2), shape_of_planes=list(pl2))))
+                    # ... and through the Hermitian transpose of the intermediate result: ((x S)^H)^H B
+                    R3 = u.quat_matmat(u.quat_hermitian(u.quat_hermitian(R1)), B_) if np.ndim(R1) == 2 or pl1 is not None else None
+                    if R3 is not None:
+                        d3 = dense_of(R3)[0]
+                        n_ev += 1
+                        if d3.size != want2.size or not np.array_equal(d3.reshape(want2.shape), want2):
+                            fails.append(("product.chain", "ProductIsHamilton", dict(tag, step="((x S)^H)^H B", got_shape=list(d3.shape), want=want2.tolist())))
+    return n_ev, fails
+
+
 def run(ctx, replay=None):
     lib()
     thorough = ctx.tier == "thorough"
@@ -363,6 +415,12 @@ def run(ctx, replay=None):
         ctx.count(c, len(done))
     ctx.sample({"direction": "F", "state": {k: done[len(done) // 2][k] for k in ("kind", "A", "B", "ea", "eb")},
                 "expected_C": done[len(done) // 2]["out"]["C"]})
+    # ---------------- chained products, vectors held as 1-D arrays
+    for n_ev, fails in par.pmap(_chain_job, [ctx.seed * 77 + i for i in range(32 if thorough else 8)], chunk=1):
+        ctx.replays += n_ev
+        for fn, clause, detail in fails:
+            ctx.fail(fn, clause, "chained:%s.%s.%s" % (detail["left"], detail["middle"], detail["right"]), detail)
+    ctx.count("ProductShape", 1)
     # ---------------- B: code -> TLC
     total = 30000 if thorough else 3000
     chunks = 16
